@@ -320,9 +320,10 @@ def run(pid, tier, seed, t0):
         model = f_model.result()
     if server_errors:
         vlib.log("server errors (informative): %s" % server_errors[:5])
+    conn_info = __import__("x_conninfo").stage(pid, tier, seed, verdict)   # ConnInfo.tla: every request carries its own connection's info
     body = __import__("x_body").stage(pid, tier, seed, verdict)   # Body.tla: frames, end-of-stream, size hints, end-to-end framing
     code, unlisted = verdict.finish()
-    coverage = {"body_model": body,
+    coverage = {"body_model": body, "conn_info_model": conn_info,
         "evaluations": counts.get("requests", 0),
         "distinct_nontrivial": totals["nontrivial"],
         "rule": ("seeded random runs of the real client/server: per run 2-6 origins (own server each: auto/http1/http2 over "
@@ -373,6 +374,8 @@ def replay(pid, path):
     current tree and lets the monitor decide again. Real multi-thread runs are not bit-reproducible;
     the scenario (servers, plans, payloads, cancellation points) is."""
     obj = json.load(open(path))
+    if isinstance(obj.get("replay"), dict) and obj["replay"].get("kind") == "conninfo-trace":
+        return __import__("x_conninfo").replay(pid, obj)
     if isinstance(obj.get("replay"), dict) and obj["replay"].get("kind") == "body-ops":
         return __import__("x_body").replay(pid, obj)
     rp = obj["replay"]
